@@ -623,54 +623,50 @@ def _find(src: str, pattern: str, what: str) -> re.Match:
     min_instances=5,
 )
 def macro_doubling(repo, res):
+    from ..absint import Node as _N0, Raised as _R0, _PyCall as _PC0
+    from ..sliceint import value_of
+    from ._irsamples import IRSamples
+
     rep = repo.mod("ffcx.ir.representation")
     f = rep.func("_compute_integral_ir")
     res.functions.add(f.key)
-    src = ast.unparse(f.node)
+    S = IRSamples(repo)
+
+    def shape_for(itype, part, args):
+        env = S.integral_env(itype)
+        env["options"] = {"part": part}
+        env["form_data"].f["argument_elements"] = list(args)
+        env["form_data"].f["rank"] = len(args)
+        cel = _N0("CoordinateElement", basix_hash=_PC0(lambda: 77), dim=3)
+        env["itg_data"].f["domain"] = _N0("Mesh", ufl_coordinate_element=_PC0(lambda: cel))
+        env["entity_type"] = "cell" if itype == "cell" else "facet"
+        try:
+            return value_of(S.interp(), f, env, key="tensor_shape", final=True)
+        except _R0 as e:
+            return f"raises {e.what}"
+
     key = f"{f.key}:tensor_shape"
     res.ob(key)
-    m = _find(src, r"(?P<dims>\w+) = \[(?P<ed>\w+)\[(?P<e>\w+)\] for (?P<e2>\w+) in form_data\.argument_elements\]", "argument dimensions list")
-    dims = m.group("dims")
-    if m.group("e") != m.group("e2"):
-        res.fail(key, "argument dimensions are not looked up per argument element", rep.line(f.node))
-    m = _find(src, r"if (?P<test>[^\n]+):\n\s+expression_ir\['tensor_shape'\] = (?P<a>[^\n]+)\n\s+else:\n\s+expression_ir\['tensor_shape'\] = (?P<b>[^\n]+)\n",
-              "tensor_shape case analysis")
-    test = m.group("test").replace(" ", "")
-    pos = test in ("expression_ir['integral_type']=='interior_facet'", "integral_type=='interior_facet'")
-    neg = test in ("expression_ir['integral_type']!='interior_facet'", "integral_type!='interior_facet'")
-    a, b = (m.group("a"), m.group("b")) if pos else (m.group("b"), m.group("a"))
-    dbl = re.fullmatch(rf"\[(2 \* (\w+)|(\w+) \* 2) for (\w+) in {dims}\]", a)
-    if not (pos or neg) or not dbl or b != dims:
-        res.fail(key, f"tensor_shape is `{a}` on interior facets and `{b}` otherwise; ufcx.h: A blocks [+,-]x[+,-], i.e. 2*dim per "
-                 "argument exactly on interior facets", rep.line(f.node))
+    for itype in ("cell", "exterior_facet", "interior_facet", "vertex"):
+        for args in ([], [S.elB], [S.elB, S.elC]):
+            k_ = 2 if itype == "interior_facet" else 1
+            want = [k_ * a.f["dim"] for a in args]
+            got = shape_for(itype, "full", args)
+            if got != want:
+                res.fail(key, f"tensor_shape of a rank-{len(args)} {itype} integral with argument dimensions {[a.f['dim'] for a in args]} is {got}, expected {want}; "
+                         "ufcx.h: A blocks [+,-]x[+,-], i.e. 2*dim per argument exactly on interior facets", rep.line(f.node))
     key = f"{f.key}:diagonal-shape"
     res.ob(key)
-    if not re.search(r"if diagonalise:\s+expression_ir\['tensor_shape'\] = expression_ir\['tensor_shape'\]\[:1\]", src):
-        res.fail(key, "diagonal assembly does not reduce the tensor shape to its first dimension", rep.line(f.node))
-    # '-' dof shift
-    et = repo.mod("ffcx.ir.elementtables")
-    g = et.func("build_optimized_tables")
-    res.functions.add(g.key)
-    gs = ast.unparse(g.node)
-    key = f"{g.key}:minus-dof-shift"
-    res.ob(key)
-    m = _find(gs, r"if (?P<test>[^\n]*restriction[^\n]*):\n\s+(?P<co>\w+) = (?P<val>[^\n]+)\n", "dof shift of restricted arguments")
-    t = m.group("test").replace(" ", "")
-    if not ("mt.restriction=='-'" in t and "isinstance(mt.terminal,ufl.classes.FormArgument)" in t and " or " not in m.group("test")):
-        res.fail(key, f"the dof shift is applied under `{m.group('test')}`; it must apply exactly to \"-\" restricted form arguments", et.line(g.node))
-    if m.group("val") != "element.dim":
-        res.fail(key, f"\"-\" dofs are shifted by `{m.group('val')}`, not by the element dimension", et.line(g.node))
-    co = m.group("co")
-    if not re.search(rf"\b{co} = 0\b", gs):
-        res.fail(key, "the dof shift is not reset to 0 for each modified terminal", et.line(g.node))
-    m2 = _find(gs, rf"(?P<off>\w+) = (?P<x>[\w\[\]'.]+) \+ (?P<y>[\w\[\]'.]+)\n", "table offset")
-    offs = re.findall(rf"(\w+) = {co} \+ t\['offset'\]|(\w+) = t\['offset'\] \+ {co}", gs)
-    if not offs:
-        res.fail(key, "table offset is not (shift of the restriction) + (offset of the component)", et.line(g.node))
-    else:
-        off = [x for tup in offs for x in tup if x][0]
-        if not re.search(rf"offset={off}\b", gs):
-            res.fail(key, "the computed offset is not the one stored in the table reference", et.line(g.node))
+    for itype in ("cell", "interior_facet"):
+        k_ = 2 if itype == "interior_facet" else 1
+        got = shape_for(itype, "diagonal", [S.elB, S.elB])
+        if got != [k_ * 3]:
+            res.fail(key, f"part='diagonal' on a bilinear {itype} form with two dim-3 arguments gives tensor_shape {got}, expected {[k_ * 3]} (the diagonal is a vector)",
+                     rep.line(f.node))
+        got = shape_for(itype, "diagonal", [S.elB])
+        if got != [k_ * 3]:
+            res.fail(key, f"part='diagonal' changes the tensor shape of a linear form to {got}", rep.line(f.node))
+    # '-' dof shift of restricted form arguments in the table references: rule GEN-TABLES (build_optimized_tables interpreted)
     # '-' coordinate shift in the definitions of x and J: decided by GEN-DEFS (the definition functions interpreted on samples)
     # '-' coordinate shift in direct vertex-coordinate access: domain_dof_access interpreted
     from ..absint import Interp as _I, Node as _N, Raised as _R
